@@ -643,12 +643,12 @@ pub fn run(s: &Session) {
     s.assume("a ⭒ b = Blake2b-256(a ‖ b); epoch nonce = nc ⭒ nh [⭒ extra entropy]; rolling nonce = prev ⭒ Blake2b-256(vrf output)");
     s.assume("minicbor::to_vec of the harness' own Encode impl defines the encoded bytes of a generated value (cross-checked with cborx)");
 
-    s.forall("chunked-hashing", s.pick(600_000, 8_000_000), chunk_case, check_chunks);
+    s.forall("chunked-hashing", s.pick(1_000_000, 6_000_000), chunk_case, check_chunks);
     s.foreach("all-tags", vec![0u8, 1, 2], true, check_all_tags);
-    s.forall("tagged-and-cbor", s.pick(200_000, 3_000_000), tagged_case, check_tagged);
-    s.forall("hash-values", s.pick(300_000, 4_000_000), hash_case, check_hash);
+    s.forall("tagged-and-cbor", s.pick(350_000, 2_000_000), tagged_case, check_tagged);
+    s.forall("hash-values", s.pick(500_000, 3_000_000), hash_case, check_hash);
     s.foreach("published-nonce-vectors", vectors(), false, check_vector);
-    s.forall("nonces", s.pick(300_000, 4_000_000), nonce_case, check_nonce);
+    s.forall("nonces", s.pick(500_000, 3_000_000), nonce_case, check_nonce);
 
     if !s.replaying() {
         for c in [
